@@ -40,7 +40,7 @@ CLAIMED = {
                 "empty, the loop visits the whole scheme without early exit (only zero-coefficient skips), and the update adds the "
                 "result computed for THIS element times THIS element's coefficient; perform_operation initialises before and reads the "
                 "result after the complete loop; points and weights use the same tensor enumerator, are filled from the same 1-D "
-                "source in the same loop, with the same boundary slice. Exactness / reproduction at grid points is NOT decided. Round 3: the scheme combined by perform_operation is recomputed from this call's levels and the operation re-initialised on every path (D5), every run starts with a freshly allocated accumulator because get_result hands out the accumulator itself (D6), the (n_points, n_components) value buffer is never reshaped with the component count first (D7); generic state rules S1-S3.",
+                "source in the same loop, with the same boundary slice. Exactness / reproduction at grid points is NOT decided. Round 3: the scheme combined by perform_operation is recomputed from this call's levels and the operation re-initialised on every path (D5), every run starts with a freshly allocated accumulator because get_result hands out the accumulator itself (D6), the (n_points, n_components) value buffer is never reshaped with the component count first (D7); the half weight of the trapezoidal rule is decided on with-boundary positions (D3, round 4); generic state rules S1-S3.",
         "technique": "loop-shape and accumulator discipline on the CFG, same-object value terms, sibling agreement of enumerators "
                      "and slices",
         "design_ref": "DESIGN.md section 3, C02",
@@ -136,7 +136,7 @@ CLAIMED = {
                 "points missing in the finer table), both as polynomial identities independent of spelling; the Romberg weight cache "
                 "is keyed by points and levels, its other inputs are init-only, and store/lookup use the same key; the tree "
                 "completion adds only the missing side at the mirror point over a snapshot of the nodes. Exactness to order 2m+1 etc. "
-                "is numerical and NOT decided. Round 3: normalised container levels of multi-slice containers come from the index structure, not from the tree levels (D7); S2 judges lazily memoised weights (every setter drops them) and keys of new weight caches; S1, S3.",
+                "is numerical and NOT decided. Round 3: normalised container levels of multi-slice containers come from the index structure, not from the tree levels (D7); the recursive leaf collection descends only below nodes known not to be leaves (D8, round 4); S2 judges lazily memoised weights (every setter drops them) and keys of new weight caches; S1, S3.",
         "technique": "exhaustiveness of enum dispatch + return-on-all-paths, polynomial identity checking, cache-key coverage with "
                      "init-only ownership, complementary-branch checks",
         "design_ref": "DESIGN.md section 3, C11",
@@ -201,7 +201,7 @@ CLAIMED = {
                 "package (effect analysis; this rule found the repaired test_data defect), learning-time scaling attributes are init-only "
                 "and re-applied by the same shift/scale/shift triple with consistent constants, _classificate takes the arg-max over all "
                 "classifiers on the class axis, evaluation summaries are computed from the same sequences and total, earlier calculated "
-                "classes are only extended, and only range-filtered data is classified. Correctness of densities / label = index is NOT decided. Added during the build: quantifier analysis of the out-of-range test (any / min below, any / max above, joined by or) in D6; unlabelled samples set aside (D7); memo tables of the density evaluation live no longer than the inputs of their values (D8). Round 2: learning-time scaling attributes are not stored again once _initialize used them (D2, None-guards correlated); calculated classes and stored testing data are extended by the same samples on the same paths (D5). Round 3: removal thresholds lie strictly outside the learning range (D6); re-applying the learning scaling does not write into arrays handed in by the caller (D10, shared with C18.D7); S1-S3.",
+                "classes are only extended, and only range-filtered data is classified. Correctness of densities / label = index is NOT decided. Added during the build: quantifier analysis of the out-of-range test (any / min below, any / max above, joined by or) in D6; unlabelled samples set aside (D7); memo tables of the density evaluation live no longer than the inputs of their values (D8). Round 2: learning-time scaling attributes are not stored again once _initialize used them (D2, None-guards correlated); calculated classes and stored testing data are extended by the same samples on the same paths (D5). Round 3/4: removal thresholds lie strictly outside the learning range and the learning scaling is applied only to data that is not scaled yet (D6); re-applying the learning scaling does not write into arrays handed in by the caller (D10, shared with C18.D7); S1-S3.",
         "technique": "method effect (purity) analysis + dropped-result scan, init-only ownership, sibling call-sequence agreement, value-term "
                      "pattern checks, def-use derivation from the out-of-range filter",
         "design_ref": "DESIGN.md section 3, C19",
